@@ -16,7 +16,7 @@ def main():
     outp = os.path.join(HERE, "seeded", "MATRIX.json")
     matrix = json.load(open(outp)) if os.path.exists(outp) else {}
     work = "/tmp/sweep-repo"
-    for sid in ["unchanged"] + ids:
+    for sid in (["unchanged"] if "--fast" not in sys.argv else []) + ids:
         shutil.rmtree(work, ignore_errors=True)
         shutil.copytree(SRC_REPO, work, ignore=shutil.ignore_patterns("target", ".git"))
         if sid != "unchanged":
@@ -36,6 +36,9 @@ def main():
             if "py/jsonlogic_rs" in patch or "python_iface" in patch:
                 want.add("C19")
             selected = [p for p in props if p not in ("C01", "C17", "C18", "C19") or p in want]
+            if "--fast" in sys.argv:
+                # in-process checks only; the four slow checks are taken from seeded/RESULTS.json
+                selected = [p for p in props if p not in ("C01", "C17", "C18", "C19")]
         for p in selected:
             env = dict(os.environ)
             env["JL_REPO"] = work
